@@ -398,7 +398,10 @@ def codec_stage(c, clip_scaled=None):
     for k in range(n_arrays):
       kind = ['in', 'boundary', 'near', 'far', 'extreme', 'mixed'][k % 6]
       a, t = gen_array(c.rng, space, cfg, kind, carrier_max)
-      if jaxpath and not x64:       # jnp.asarray rounds the entries to float32 before the converter sees them
+      # the array the converter sees is float32 when jnp.asarray rounds it (x64 off), when the
+      # converter dtype is float32 and the array is built in / cast to that dtype (dict_like().astype)
+      is64 = (k % 2 == 1) and path == 'dict'
+      if (jaxpath and not x64) or (cfg['f32'] and not is64):
         a = [x if isinstance(x, int) else float(np.float32(x)) for x in a]
       arrays.append(a); tags.append(t | {kind})
     meta = {'space': space, 'cfg': cfg, 'path': path, 'pad': padk, 'pts': pts_all, 'n_feasible_pts': len(pts),
